@@ -10,8 +10,34 @@ use crate::Server;
 use dsverif::util::{emit, g_bytes, g_list, g_opt, g_str, Rng};
 use std::io::Write;
 
+/// long undecodable texts: lengths around powers of two, with a multi-byte
+/// character placed so that it straddles such an offset (error paths that
+/// quote, truncate or index the offending value)
+fn long_bad(rng: &mut Rng) -> Vec<(&'static str, String)> {
+    let mut v = vec![];
+    for _ in 0..3 {
+        let edge = *rng.pick(&[16usize, 32, 64, 128, 256, 512, 1024]);
+        let ch = *rng.pick(&["\u{e9}", "\u{20ac}", "\u{1F600}"]);
+        // the character starts 0..3 bytes before the edge
+        let before = edge - rng.below(ch.len().min(edge)) - if rng.chance(1, 2) { 0 } else { 1 }.min(edge - 1);
+        let after = rng.below(4) * rng.range(1, 40);
+        let s = format!("{}{}{}", "q".repeat(before), ch, "z".repeat(after));
+        v.push(("wrong-type-long", s));
+    }
+    v.push(("wrong-type-long", "\u{e9}".repeat(rng.range(30, 140))));
+    v
+}
+
 /// texts that do NOT denote a value of the type: (malformation kind, text)
 pub fn bad_texts(rng: &mut Rng, t: Sty) -> Vec<(&'static str, String)> {
+    let mut v = bad_texts_short(rng, t);
+    if !matches!(t, Sty::Str) {
+        v.extend(long_bad(rng));
+    }
+    v
+}
+
+fn bad_texts_short(rng: &mut Rng, t: Sty) -> Vec<(&'static str, String)> {
     match t {
         Sty::Str => vec![],
         Sty::Bool => ["True", "TRUE", "1", "0", "yes", "t", "false ", " true", "truee", "\u{e9}"]
